@@ -115,7 +115,14 @@ func init() {
 				if !long && i%4 == 1 {
 					p.Reps = 2 + r.IntN(2)
 				}
-				p.Desc = fmt.Sprintf("mode=%s c=%d dur=%dms limit=%d failEvery=%d body=%s harnessSnapshots=%v", mode, c, spec.MaxDurationMS, spec.MaxIterations, p.FailEvery, p.Body, p.Snapshots)
+				if i%3 != 0 {
+					// static metric labels: 1..6 of them (the label values are rebuilt on every record)
+					p.Spec.Labels = map[string]string{}
+					for k := 0; k <= i%6; k++ {
+						p.Spec.Labels[fmt.Sprintf("label_%d", k)] = fmt.Sprintf("value %d", k)
+					}
+				}
+				p.Desc = fmt.Sprintf("mode=%s c=%d dur=%dms limit=%d failEvery=%d body=%s harnessSnapshots=%v labels=%d", mode, c, spec.MaxDurationMS, spec.MaxIterations, p.FailEvery, p.Body, p.Snapshots, len(p.Spec.Labels))
 				kind := "run"
 				if p.Snapshots {
 					kind = "integration"
@@ -518,7 +525,7 @@ func c01Integration(c *core.Case, o *core.Outcome) {
 	var p c01RunParams
 	c.Params(&p)
 	var passed, failed atomic.Int64
-	env := engine.NewPoolEnv("integration", c01Scenario(&p, &passed, &failed, c.Rng("salt").Uint64()), p.Spec.MaxIterations, nil)
+	env := engine.NewPoolEnv("integration", c01Scenario(&p, &passed, &failed, c.Rng("salt").Uint64()), p.Spec.MaxIterations, p.Spec.Labels)
 	res := run.NewResult(options.RunOptions{Scenario: "integration", IgnoreDropped: true}, views.New(), env.Stats)
 	ctx, cancel := context.WithCancel(context.Background())
 	defer cancel()
